@@ -610,7 +610,9 @@ impl ParserListener for Screen {
             column = self.columns - 1;
         }
 
-        self.cursor.x = column;
+        // A stop set while the screen was wider must not carry the cursor
+        // past the last column.
+        self.cursor.x = column.min(self.columns - 1);
     }
 
     /// Move the cursor to the beginning of the current line.
